@@ -8,7 +8,8 @@ scans 11, 12 (equal frame sizes) of a pool.  Ops (see the specification's header
    cp    sparseframe.sparse_connected_pixels(frame, threshold=t)   -> frame.pixels["connectedpixels"] (sibling wrapper:
          only memory / standing is judged here, its values are C11's business)
    slm0 / slm1   SparseScan.lmlabel(countall=True, smooth=False / True) -> scan.labels, scan.nlabels, scan.signal
-The abstract pool is bound to several seeded concrete pools (make_pools).  Every array a call hands out is KEPT, with a
+The abstract pool is bound to several seeded concrete pools (make_pools; the pool "gaps" holds values of mixed sign with an
+exact 0, the others positive values).  Every array a call hands out is KEPT, with a
 snapshot taken at return and the expectation of the independent definitions (passed in by props/c13.py: the
 steepest-ascent definition on the listed pixels, the exact 4/2/1 smoothing weights).  After EVERY call ALL results held
 so far are re-judged (the specification's Stand), np.shares_memory between results of different calls / parts and
@@ -46,9 +47,11 @@ def _mask_with(rng, shape, n, gaps=False):
     return m
 
 
-def _frame(rng, m):
+def _frame(rng, m, signed=False):
     ii, jj = np.nonzero(m)
     vals = rng.permutation(len(ii)).astype(np.int64) * 3 + 1        # distinct positive integers, far below 2^20
+    if signed:                      # background-subtracted data: negative values, an exact 0, positive values
+        vals = vals - vals[len(vals) // 2]
     return (m.shape, ii.astype(np.uint16), jj.astype(np.uint16), vals)
 
 
@@ -67,12 +70,13 @@ def make_pools(rng, tier, directory):
         m1 = _mask_with(rng, shape, n1, gaps)
         m2 = m1 if how == "same" else _mask_with(rng, shape, n1, gaps)
         m3 = _mask_with(rng, shape, n3, gaps)
-        p.frames = {1: _frame(rng, m1), 2: _frame(rng, m2), 3: _frame(rng, m3)}
+        sg = name == "gaps"         # one pool of mixed sign (the others: positive values)
+        p.frames = {1: _frame(rng, m1, sg), 2: _frame(rng, m2, sg), 3: _frame(rng, m3, sg)}
         if not (len(p.frames[1][1]) == len(p.frames[2][1]) != len(p.frames[3][1])):
             raise RuntimeError("pool %s does not have the nnz pattern of the model" % name)
         # scans: [mask1, no pixels, mask2, mask3] twice with other intensities: all frame sizes equal between the scans
         for sid in (11, 12):
-            p.scans[sid] = [_frame(rng, m1), None, _frame(rng, m2), _frame(rng, m3)]
+            p.scans[sid] = [_frame(rng, m1, sg), None, _frame(rng, m2, sg), _frame(rng, m3, sg)]
         p.hname = os.path.join(directory, "c13_calls_%s.h5" % name)
         with h5py.File(p.hname, "w") as h:
             for sid, frs in p.scans.items():
